@@ -113,6 +113,7 @@ class Executor(object):
         self.inline = set()      # names of internal functions executed inline (call stack in the state)
         self.inv_n = 0
         self.keep = []           # keep z3 terms alive (ids are used as keys)
+        self.decide_hook = None  # optional: symbolic branch conditions are decided by an outer explorer (engine P) instead of forking here
 
     # ---------------------------------------------------------------- helpers
     def fresh(self, base, sort='int'):
@@ -181,10 +182,11 @@ class Executor(object):
         if tok == 'false': return 0
         if re.match(r'^-?\d+$', tok): return int(tok)
         if ty.kind in ('double', 'float'):
+            import fractions
             if tok.startswith('0x'):
                 import struct
-                return z3.RealVal(repr(struct.unpack('>d', bytes.fromhex(tok[2:].rjust(16, '0')))[0]))
-            return z3.RealVal(tok)
+                return z3.RealVal(str(fractions.Fraction(struct.unpack('>d', bytes.fromhex(tok[2:].rjust(16, '0')))[0])))     # the exact value of the double
+            return z3.RealVal(str(fractions.Fraction(float(tok))))
         if tok.startswith('getelementptr'):
             inner = tok[tok.index('(') + 1: tok.rindex(')')]
             parts = split_top(inner)
@@ -403,6 +405,8 @@ class Executor(object):
         c = z3.simplify(cond)
         if z3.is_true(c): return t_label
         if z3.is_false(c): return f_label
+        if self.decide_hook is not None:
+            return t_label if self.decide_hook(c) else f_label
         outs = []
         for side, lab in ((c, t_label), (z3.Not(c), f_label)):
             self.stats['branch_queries'] += 1
@@ -663,7 +667,10 @@ class Executor(object):
                 else: st.regs[res] = self.wrap(st, v, dt.bits)
             elif op in ('sitofp', 'uitofp'): st.regs[res] = z3.ToReal(v) if not is_conc(v) else z3.RealVal(v)
             else:
-                if z3.is_expr(v) and v.decl().kind() == z3.Z3_OP_TO_REAL: st.regs[res] = v.arg(0)
+                if z3.is_expr(v) and z3.is_rational_value(z3.simplify(v)):
+                    fr = z3.simplify(v).as_fraction()
+                    st.regs[res] = int(fr) if fr >= 0 else -int(-fr)          # truncation toward zero
+                elif z3.is_expr(v) and v.decl().kind() == z3.Z3_OP_TO_REAL: st.regs[res] = v.arg(0)
                 else:
                     st.notes.append('fptosi approximated'); st.regs[res] = self.fresh('fptosi')
             return None
